@@ -111,6 +111,28 @@ func driveC12(args []string) error {
 			}
 		}
 	}
+	// the target equal to the viewBox's Max corner (not its size) for viewBoxes that do not start at the origin
+	for _, q := range [][4]int{{-16, 0, 48, 48}, {-32, -32, 32, 32}, {8, 4, 40, 24}, {-8, -24, 24, 24}, {4, 0, 12, 36}, {0, -10, 30, 20}} {
+		for _, ax := range as {
+			for _, ay := range as {
+				vb4 := [4]int{4 * q[0], 4 * q[1], 4 * q[2], 4 * q[3]}
+				vb := ivg.ViewBox{MinX: float32(q[0]), MinY: float32(q[1]), MaxX: float32(q[2]), MaxY: float32(q[3])}
+				fdx, fdy := float32(q[2]), float32(q[3])
+				for _, kind := range []string{"meet", "slice"} {
+					var a, b, cc, d float32
+					if kind == "meet" {
+						a, b, cc, d = vb.AspectMeet(fdx, fdy, float32(ax)/4, float32(ay)/4)
+					} else {
+						a, b, cc, d = vb.AspectSlice(fdx, fdy, float32(ax)/4, float32(ay)/4)
+					}
+					sh.Next().Emit(fitEv{Ev: "fit", Kind: kind, Vb4: vb4, E1: 0, D4: [2]int{4 * q[2], 4 * q[3]}, E2: 0, A4: [2]int{ax, ay},
+						Vb: fs(vb.MinX, vb.MinY, vb.MaxX, vb.MaxY), D: fs(fdx, fdy), A: fs(float32(ax)/4, float32(ay)/4), Got: fs(a, b, cc, d)})
+					stats["fit"]++
+					stats["target_is_max_corner"]++
+				}
+			}
+		}
+	}
 	// the viewBox's own size as the target, at several origins (nothing to scale)
 	for _, o := range origins {
 		for vw := 1; vw <= 12; vw++ {
